@@ -12,6 +12,7 @@ package main
 //  (P) Open -> Sign -> Open: an existing signature is elided by Sign only if a signer uses the same key; all
 //      others (verified and unverified, also several distinct ones of one key) are emitted, before the new ones.
 //  (A) VerifierList with two verifiers for one (name, hash): lookup fails, Open fails.
+//  (L) (S)/(B)/(R) on signature blocks with a very long line (long signature of a custom Signer, long key name): util_c07long.go.
 //  (H) "any set of known verifiers": a VerifierList holds the verifiers it was built from, whatever the caller
 //      does with the slice it passed with '...' afterwards; (S)/(B)/(R)/(A) on such histories (util_c07alias.go).
 
@@ -244,9 +245,14 @@ func c07RelayLine(r *Rand, lines []c07BLine, pick func() string) []c07BLine {
 
 func oracleC07(g *Gen, n int) {
 	r := g.Rand
+	rl := c07Fork(r, 0xc07b) // the stream of the long-line cases, forked: the stream of the other cases is unchanged
 	keys := c07RealKeys(g)
 	if len(keys) < 4 {
 		return
+	}
+	// (L) very long signature lines (util_c07long.go): each case is large, so they are a fixed share, not a switch arm
+	for it := 0; it < n/16+8; it++ {
+		c07OracleLong(g, rl, keys)
 	}
 	for it := 0; it < n; it++ {
 		switch r.Intn(16) {
